@@ -76,6 +76,10 @@ type Cfg struct {
 	PStall                                                            int // per mille chance per step that a host is frozen (VM pause, long GC): none of its tasks, ticks or deliveries happen for a while
 	StallLen                                                          int // longest stall, in steps
 	TickSkew                                                          int // 1: hosts tick at different rates (drawn per host: 1x .. 8x)
+	PHold                                                             int // per mille of the parks at state machine / engine yield points after which the task is not resumed for a while (a goroutine that lost the CPU, or the race for a mutex, for long)
+	HoldLen                                                           int // longest hold, in steps
+	FinalReads                                                        int // 1: in the fair final phase every running replica is asked for a ReadIndex in every round (a read-heavy service: every heartbeat of the leader carries a read confirmation hint)
+	CCWindow                                                          int // per cent of the parks between a membership change's applied index and its raft update (node.ApplyConfigChange) on a non-leader that are held long while the links between that host and the leader are cut: faults aimed at a membership change, as the guidance asks
 }
 
 // Host is one simulated machine.
@@ -101,7 +105,8 @@ type Host struct {
 	removed                 bool
 	selfRemoved             bool
 	crashedBefore           bool
-	restartedWhileReceiving bool // StartReplica ran while a snapshot chunk task of this host was in flight
+	stepCovered             int64 // ticks of this host that a completed step of its step worker has certainly handled
+	restartedWhileReceiving bool  // StartReplica ran while a snapshot chunk task of this host was in flight
 	imported                bool
 	snapDir                 string
 	role                    int  // current role as far as the harness knows
@@ -125,9 +130,10 @@ type Sim struct {
 	seqno              int64 // global event sequence number (history stamps)
 	ticks              int64
 	faultsOn           bool
-	now                int   // steps executed (stall clock)
-	stallUntil         []int // per host: frozen while now < stallUntil
-	tickWeight         []int // per host: relative tick rate (clock skew)
+	now                int                // steps executed (stall clock)
+	stallUntil         []int              // per host: frozen while now < stallUntil
+	tickWeight         []int              // per host: relative tick rate (clock skew)
+	holdUntil          map[*coro.Task]int // parked tasks that are not resumed before step now reaches the value
 	pendingAsync       []asyncJob
 	admin              []*adminReq
 	orc                *oracles
@@ -213,6 +219,10 @@ func drawCfg(ctx *runner.Ctx) Cfg {
 	c.PStall = p("pstall", pick(s, 0, 0, 0, 1, 3))
 	c.StallLen = p("stalllen", pick(s, 60, 20, 200, 600))
 	c.TickSkew = p("tickskew", pick(s, 0, 0, 1))
+	c.PHold = p("phold", pick(s, 0, 0, 100, 300))
+	c.HoldLen = p("holdlen", pick(s, 100, 30, 300, 800))
+	c.CCWindow = p("ccwindow", 0)
+	c.FinalReads = p("finalreads", pick(s, 0, 0, 1))
 	if c.Hosts < 1 {
 		c.Hosts = 1
 	}
@@ -537,7 +547,7 @@ func newSim(ctx *runner.Ctx, tweak func(c *Cfg)) *Sim {
 	transport.VerifHooks.SendBatch = s.hookSendBatch
 	transport.VerifHooks.Async = s.hookAsync
 	dragonboat.VerifYieldHook = func(point string) {
-		if point == "node.ApplyUpdate" {
+		if point == "node.ApplyUpdate" || point == "node.ApplyConfigChange" || point == "node.RestoreRemotes" {
 			s.ex.Yield("sm."+point, 0)
 		} else {
 			s.ex.Yield("eng."+point, 0)
@@ -560,6 +570,7 @@ func newSim(ctx *runner.Ctx, tweak func(c *Cfg)) *Sim {
 		s.clients = append(s.clients, &Client{id: i, sim: s})
 	}
 	s.stallUntil = make([]int, s.cfg.Hosts)
+	s.holdUntil = map[*coro.Task]int{}
 	s.tickWeight = make([]int, s.cfg.Hosts)
 	for i := range s.tickWeight {
 		s.tickWeight[i] = 1
@@ -624,6 +635,10 @@ func (s *Sim) runTask(name string, h *Host, owner string, fn func()) *coro.Task 
 			}
 		}
 	}
+	var tickAtStart int64
+	if h != nil {
+		tickAtStart = h.ticks
+	}
 	t = s.ex.Start(name, hid, owner, fn)
 	if taskTrace {
 		s.ctx.Tracef("task %s -> state=%d blocked=%t at=%s | %s", name, t.State(), t.Blocked, t.Point, s.ex.Describe())
@@ -634,7 +649,14 @@ func (s *Sim) runTask(name string, h *Host, owner string, fn func()) *coro.Task 
 			if h.busy != nil && h.busy[owner] == t {
 				delete(h.busy, owner)
 			}
+			if name == "step.work" && h.inc == inc && !t.Dead && t.Panic == nil && tickAtStart > h.stepCovered {
+				h.stepCovered = tickAtStart
+			}
 		}
+	} else if h != nil && name == "step.work" && t.State() == coro.Done && t.Panic == nil && h.inc == inc && tickAtStart > h.stepCovered {
+		// a completed step of the step worker has handled every tick handed to
+		// the host before the step began
+		h.stepCovered = tickAtStart
 	}
 	s.checkTask(t)
 	return t
@@ -786,6 +808,12 @@ func (s *Sim) options(tickers bool) []option {
 	var opts []option
 	for _, t := range s.ex.Live() {
 		if t.State() == coro.Parked && !t.Dead && !s.stalled(t.Host) {
+			if u, held := s.holdUntil[t]; held {
+				if s.faultsOn && s.now < u {
+					continue
+				}
+				delete(s.holdUntil, t)
+			}
 			opts = append(opts, option{kind: 0, task: t})
 		}
 	}
@@ -1240,13 +1268,50 @@ func (s *Sim) yieldFilter(t *coro.Task, point string, arg uint64) bool {
 	if len(point) > 3 && point[:3] == "fs." {
 		return s.cfg.FSYield > 0 && s.src.Chance(s.cfg.FSYield, 1000)
 	}
+	if s.cfg.CCWindow > 0 && (point == "sm.node.ApplyConfigChange" || point == "sm.node.RestoreRemotes") && s.faultsOn && t.Host >= 0 {
+		if s.src.Chance(s.cfg.CCWindow, 100) && s.aimAtConfigChange(t) {
+			return true
+		}
+	}
 	if len(point) > 3 && point[:3] == "sm." {
-		return s.cfg.SMYield > 0 && s.src.Chance(s.cfg.SMYield, 1000)
+		return s.hold(t, s.cfg.SMYield > 0 && s.src.Chance(s.cfg.SMYield, 1000))
 	}
 	if len(point) > 4 && point[:4] == "eng." {
-		return s.cfg.EngYield > 0 && s.src.Chance(s.cfg.EngYield, 1000)
+		return s.hold(t, s.cfg.EngYield > 0 && s.src.Chance(s.cfg.EngYield, 1000))
 	}
 	return true
+}
+
+// aimAtConfigChange: the apply worker of a replica that does not lead is about
+// to tell its raft core about a membership change whose index its state machine
+// already reports as applied. It loses the CPU there for long, and the links
+// between its host and the leader's fail.
+func (s *Sim) aimAtConfigChange(t *coro.Task) bool {
+	leader := -1
+	var term uint64
+	for _, h := range s.hosts {
+		if st, ok := s.orc.peek(h); ok && st.Role == "Leader" && st.Term >= term {
+			leader, term = h.id, st.Term
+		}
+	}
+	if leader < 0 || leader == t.Host {
+		return false
+	}
+	s.holdUntil[t] = s.now + s.cfg.HoldLen/2 + s.src.Intn(s.cfg.HoldLen/2+1)
+	s.net.cut[leader][t.Host], s.net.cut[t.Host][leader] = true, true
+	s.ctx.Count("fault.config_change_window", 1)
+	s.ctx.Ev("ccwindow", uint64(t.Host), uint64(leader))
+	return true
+}
+
+// hold decides, for a task that is about to park at a state machine or engine
+// yield point, whether it stays parked for a while (it holds no lock there).
+func (s *Sim) hold(t *coro.Task, park bool) bool {
+	if park && s.faultsOn && s.cfg.PHold > 0 && s.src.Chance(s.cfg.PHold, 1000) {
+		s.holdUntil[t] = s.now + 1 + s.src.Intn(s.cfg.HoldLen)
+		s.ctx.Count("fault.task_hold", 1)
+	}
+	return park
 }
 
 // ---- final phase: faults stop, fair schedule ----
@@ -1308,6 +1373,16 @@ func (s *Sim) fairRounds(budget int, done func() bool) bool {
 			if !h.up && !h.booting && !h.removed {
 				s.ctx.Count("probe.final_restart_after_panic", 1)
 				s.restartHost(h)
+			}
+		}
+		if s.cfg.FinalReads > 0 {
+			for _, h := range s.runningHosts() {
+				if h.role == roleWitness || h.busy["final.read"] != nil {
+					continue
+				}
+				nh := h.nh
+				s.ctx.Count("ev.final_read_pump", 1)
+				s.runTask("final.read", h, "final.read", func() { _, _ = nh.ReadIndex(shardID, 40*time.Millisecond) })
 			}
 		}
 		for _, h := range s.upHosts() {
